@@ -289,7 +289,7 @@ def c18(run):
 # ------------------------------------------------------------------------------------------------
 # accepted packets: born in the specification (S1) + generated (S4) + repository seeds (S5)
 
-def gen_s1(run, count, offset=None, stride=7919):
+def gen_s1(run, count, offset=None, stride=41868361):
     """Packets enumerated by TLC from spec/Gen_S1.tla (round trip checked while generating)."""
     offset = vlib.seed() * 104729 if offset is None else offset
     cfg = os.path.join(run.wd, "Gen_S1_%d.cfg" % count)
@@ -876,6 +876,12 @@ def book_models(run, negs=("edns", "cache", "recompute", "optttl"), parts=("book
         run.model("MC_Object", "MC_Object.cfg" if quick(run) else "MC_Object_thorough.cfg", timeout=7200)
         for neg in ("cursor", "rdlength", "edns", "optkept", "optinsert", "renameflag", "cache"):
             run.negative_control("MC_Object", "MC_Object_neg_%s.cfg" % neg)
+        # reachability controls (non-vacuity): TLC must refute "this never happens" for the situations the invariants are about
+        reach = ("NeverOptionCursorDecompresses", "NeverRenameOverflow", "NeverDecompressFirst")
+        if not quick(run):
+            reach += ("NeverRenamed", "NeverOptInserted", "NeverOptRefused", "NeverTombstoneRefused", "NeverRestart", "NeverCacheReset")
+        for r in reach:
+            run.negative_control("MC_Object", "MC_Object_reach_%s.cfg" % r)
 
 
 @check("HIST")
